@@ -52,8 +52,8 @@ for d in sorted(glob.glob("seeded/*/meta.json")):
             rr = sorted(set(re.findall(r": ([A-Z]+-[0-9a-zA-Z]+) \[", " ".join(v.get("reports", [])))))
             if v.get("exit") == 1:
                 rules.append("%s: %s" % (p, ", ".join(rr)))
-    rows.append("| %s | %s | %s | %s | %s | %s |" % (sid, m["property"], ch, needs, "yes" if m.get("confirmed") else "NO", "; ".join(rules) if rules else "—") + "")
-    rows[-1] = rows[-1][:-1] + " %s |" % verdict if verdict else rows[-1]
+    rows.append("| %s | %s | %s | %s | %s | %s | %s |" % (sid, m["property"], ch, needs, "yes" if m.get("confirmed") else "NO",
+                                                      "; ".join(rules) if rules else "—", verdict))
 table = "| seed | property | change | needs | confirmed | reported by (check: rules) | verdict |\n|---|---|---|---|---|---|---|\n" + "\n".join(rows)
 s = open("DESIGN.md").read()
 a, b = "<!-- SEED-TABLE-BEGIN -->", "<!-- SEED-TABLE-END -->"
